@@ -69,5 +69,7 @@ Expected(v, L, d) ==
 
 \* generous caps on what a victim may queue however many hostile frames arrive
 \* (pending RETIRE_CONNECTION_ID frames: quinn refuses to queue more than 50)
-QueueCaps == <<52, 70, 600, 600, 20000, 2000>>
+\* (last: bytes a stream's reassembly buffer holds beyond the span of its unread data; quinn
+\* compacts once that exceeds 32 KiB)
+QueueCaps == <<52, 70, 600, 600, 20000, 2000, 70000>>
 =============================================================================
